@@ -249,8 +249,27 @@ def _iteration(ev, node, loop_no, body_runner, after_iter, extra_fn, line):
     raise PathEnd("loop back edge")
 
 
+def _unrolled_while(ev, node):
+    st = ev.st
+    for _ in range(st.run.unroll):
+        if not st.decide(ev.cond(node.test)):
+            ev.block(node.orelse)
+            return
+        try:
+            ev.block(node.body)
+        except _Continue:
+            continue
+        except _Break:
+            return
+    if st.decide(ev.cond(node.test)):
+        raise PathEnd("unroll bound")
+    ev.block(node.orelse)
+
+
 def exec_while(ev: Ev, node):
     st = ev.st
+    if st.run.refute:
+        return _unrolled_while(ev, node)
     loop_no = _static_ordinal(ev, node)
     line = node.lineno
     c = ev.frame.root().contract
@@ -286,6 +305,27 @@ def exec_for(ev: Ev, node):
         ev.require(step != 0, "ValueError", node)
         if not st.decide(step > 0):
             ev.unsupported(node, "range with a possibly negative step")
+        if st.run.refute:
+            cur = start
+            broke = False
+            for _ in range(st.run.unroll):
+                if not st.decide(cur < stop):
+                    break
+                ev.assign(node.target, VInt(cur))
+                try:
+                    ev.block(node.body)
+                except _Continue:
+                    pass
+                except _Break:
+                    broke = True
+                    break
+                cur = cur + step
+            else:
+                if st.decide(cur < stop):
+                    raise PathEnd("unroll bound")
+            if not broke:
+                ev.block(node.orelse)
+            return
         loop_no = _static_ordinal(ev, node)
         c = ev.frame.root().contract
         unit = z3.is_int_value(z3.simplify(step)) and z3.simplify(step).as_long() == 1
@@ -348,7 +388,7 @@ def exec_for(ev: Ev, node):
     loop_no = _static_ordinal(ev, node)
     c = ev.frame.root().contract
     has_inv = c is not None and loop_no in (c.invariants or {})
-    if z3.is_int_value(n_conc) and not has_inv:
+    if z3.is_int_value(n_conc) and (not has_inv or st.run.refute):
         # concrete length and no invariant: unroll
         items = ev.iter_concrete(seq, node)
         if mode == "rev":
